@@ -111,7 +111,9 @@ LineClauses(prev, o, a, c, hh, srcTipsNow) ==
   \cup (IF bstep /\ ~ NoLoss(o, a, hh.everDest) THEN {"C08.noloss"} ELSE {})
   \cup (IF bstep /\ hh.begin.ev = "job_begin" THEN HeldClauses(hh.begin, prev, o, a, srcTipsNow) ELSE {})
   \cup (IF ~ NoCommentOnForeign(o) THEN {"C12.nocomment"} ELSE {})
-  \cup (IF o.ev = "check" /\ o.chk.dt # o.chk.ref THEN {"C02.recovery"} ELSE {})
+  \cup (IF o.ev = "check" /\ o.chk.kind \in {"recovery", "final"} /\ o.chk.dt # o.chk.ref THEN {"C02.recovery"} ELSE {})
+  \cup (IF o.ev = "check" /\ o.chk.kind = "events" /\ o.chk.dt # o.chk.ref THEN {"C19.events"} ELSE {})
+  \cup (IF o.ev = "check" /\ o.chk.kind = "fresh" /\ o.chk.dt # o.chk.ref THEN {"C10.fresh"} ELSE {})
   \cup (IF \E p \in Prs(o) :
              /\ HasPr(prev, p.id)
              /\ Len(p.msgs) > Len(PrById(prev, p.id).msgs)
